@@ -1,6 +1,7 @@
 #!/usr/bin/env python3
 """store_seed.py <property> <name> <needs> <caught_by> : copies /tmp/seed_<property> to seeded/<name>/ with meta.json"""
-import json,os,shutil,sys
+import json,os,shutil,subprocess,sys
+HEAD=subprocess.check_output(['git','-C','/repo','rev-parse','--short','HEAD']).decode().strip()
 pid,name,needs,caught=sys.argv[1:5]
 src='/tmp/seed_'+pid
 dst=os.path.join(os.path.dirname(os.path.dirname(os.path.abspath(__file__))),'seeded',name)
@@ -11,7 +12,7 @@ for f in os.listdir(src):
     p=os.path.join(src,f)
     if os.path.isdir(p): shutil.copytree(p,os.path.join(dst,f))
     else: shutil.copy(p,dst)
-meta={'property':pid,'written_by':'independent sub-agent given only the property text and a scratch worktree of /repo at a18f2e5',
+meta={'property':pid,'written_by':'independent sub-agent given only the property text and a scratch worktree of /repo at '+HEAD,
       'needs_to_manifest':needs,
       'confirmed':'tools/confirm_seed.sh: demo passes on the unchanged tree; with patch.diff applied the library builds, the repository suite passes unedited (0 failures) and the demo fails',
       'ran':'mutants/try.sh seeded/%s/patch.diff %s (scratch copy of /repo under /tmp, removed afterwards)'%(name,pid),
